@@ -130,6 +130,10 @@ class RangeDomain:
         st["detail"] = "%s on %s" % (op, [repr(x)[:30] for x in a])
         return Rng(*rng) if rng else TOP
 
+    def on_closure(self, ex, fr, path, ops):
+        """what a closure captured where it was built (used when its body has to be analysed on its own, handed to a library adaptor)"""
+        self.__dict__.setdefault("closure_envs", {}).setdefault(path, []).append(list(ops))
+
     def on_write(self, ex, fr, pl, val):
         """observes stores into the watched private integer fields (field-invariant inference)"""
         watch = getattr(self, "watch", None)
@@ -463,6 +467,24 @@ class RangeDomain:
             if n == "push" and len(a) == 2 and isinstance(a[0], Tup) and isinstance(args[0], Ref):
                 store_through(ex, args[0], Tup(list(a[0].items) + [a[1] if isinstance(a[1], (int, Rng)) else TOP]))
                 return Tup([])
+        if n == "index" and len(a) == 2 and isinstance(a[0], Tup) and isinstance(a[1], Adt) and "ops::range::Range" in a[1].name.replace("ops::Range", "ops::range::Range"):
+            # a sub-slice by a literal range: only its length matters here
+            L = len(a[0].items)
+            nm = a[1].name.split("::")[-1]
+            f = [x for x in a[1].fields]
+            lo, hi = None, None
+            if nm == "Range" and len(f) == 2:
+                lo, hi = f
+            elif nm == "RangeTo" and len(f) == 1:
+                lo, hi = 0, f[0]
+            elif nm == "RangeFrom" and len(f) == 1:
+                lo, hi = f[0], L
+            elif nm == "RangeFull":
+                lo, hi = 0, L
+            elif nm == "RangeToInclusive" and len(f) == 1 and isinstance(f[0], int):
+                lo, hi = 0, f[0] + 1
+            if isinstance(lo, int) and isinstance(hi, int) and 0 <= lo <= hi <= L:
+                return Tup(list(a[0].items[lo:hi]))
         if n == "collect" and len(a) == 1 and isinstance(a[0], Iter):
             return Tup([TOP if x is OPAQUE else x for x in a[0].items[a[0].pos:]])
         if n == "len" and len(a) == 1 and isinstance(a[0], Tup) and ("alloc::vec" in d or "slice" in d or "array" in d):
@@ -1431,6 +1453,12 @@ def run_top(F, dom, b, inline, max_steps=600000, max_paths=20000):
         for l in range(1, n + 1):
             r = ty_range(b.locals[l]["ty"])
             args.append(Rng(*r) if r else TOP)
+        # captured values as the (single) place that builds this closure left them, when the same domain analysed that place
+        envs = (getattr(dom, "closure_envs", None) or {}).get(b.rec["path"]) or []
+        if len(envs) == 1 and args:
+            hf = Frame(b, [])
+            hf.env[0] = Adt("closure:" + b.rec["path"], None, list(envs[0]))
+            args[0] = Ref(hf, 0) if b.locals[1]["ty"].strip().startswith("&") else hf.env[0]
     # a const-generic function is analysed once per instantiated value of its parameter (from the monomorphic call graph)
     gsets = []
     if b.rec.get("requires_mono"):
